@@ -182,3 +182,30 @@ Proof.
   { split; [rewrite <- (rne_IZR (qlo b true))|rewrite <- (rne_IZR (qmax b))]; apply rne_mono; assumption. }
   lia.
 Qed.
+
+(* ---- C07: separation of codes (outputs cannot collapse) ---- *)
+Open Scope R_scope.
+Theorem quant_gap b narrow s zp x y :
+  0 < s -> x <= y ->
+  IZR (qlo b narrow) <= x * (1 / s) + IZR zp -> y * (1 / s) + IZR zp <= IZR (qmax b) ->
+  (y - x) / s - 1 <= IZR (quant b narrow s zp y - quant b narrow s zp x).
+Proof.
+  intros Hs Hxy Hlo Hhi. unfold quant, clipZ.
+  set (u := x * (1 / s) + IZR zp) in *. set (v := y * (1 / s) + IZR zp) in *.
+  assert (Huv : u <= v).
+  { unfold u, v. apply Rplus_le_compat_r. apply Rmult_le_compat_r; [|exact Hxy].
+    apply Rlt_le. unfold Rdiv. rewrite Rmult_1_l. apply Rinv_0_lt_compat. exact Hs. }
+  assert (Ru : (qlo b narrow <= rne u <= qmax b)%Z).
+  { split; [rewrite <- (rne_IZR (qlo b narrow)); apply rne_mono; exact Hlo|].
+    rewrite <- (rne_IZR (qmax b)). apply rne_mono. lra. }
+  assert (Rv : (qlo b narrow <= rne v <= qmax b)%Z).
+  { split; [rewrite <- (rne_IZR (qlo b narrow)); apply rne_mono; lra|].
+    rewrite <- (rne_IZR (qmax b)). apply rne_mono. exact Hhi. }
+  replace (Z.max (qlo b narrow) (Z.min (qmax b) (rne v))) with (rne v) by lia.
+  replace (Z.max (qlo b narrow) (Z.min (qmax b) (rne u))) with (rne u) by lia.
+  rewrite minus_IZR.
+  pose proof (rne_half u) as Hu. pose proof (rne_half v) as Hv.
+  apply Rabs_le_inv in Hu. apply Rabs_le_inv in Hv.
+  assert (E : (y - x) / s = v - u) by (unfold u, v; field; lra).
+  rewrite E. lra.
+Qed.
